@@ -130,6 +130,7 @@ Section Trav1.
   Lemma c_apply_one pl g s p : cstep s (apply_one sc pl g s p).
   Proof.
     unfold apply_one. destruct (p_local p) as [l|]; [|apply c_refl].
+    destruct (negb (kind_known sc (r_known s) (p_id p))); [cs|].
     pose proof (step_policy_apply_filter sc Qt Cn Cn_refl s (p_id p)) as P.
     destruct (policy_apply_filter sc s (p_id p)) as [s1 f1]. cbn [fst] in P.
     destruct (match f1 with FPass => _ | _ => _ end); try cs.
@@ -246,7 +247,7 @@ Section Trav1.
   Lemma plan_apply_ids_NoDup : NoDup (apply_ids pl).
   Proof.
     unfold apply_ids. rewrite plan_of_eq.
-    destruct (bp_anatomy sc (locals_of sc) (found_in c0 (cand_of sc c0))) as [layers [cyc [_ [_ [E _]]]]].
+    destruct (bp_anatomy sc (live_crds sc c0) (locals_of sc) (found_in sc c0 (cand_of sc c0))) as [layers [cyc [_ [_ [E _]]]]].
     rewrite E. apply NoDup_map_filter_gen. rewrite applyA_ids. apply NoDup_map_filter_gen.
     apply locals_of_NoDup. exact HND.
   Qed.
